@@ -27,7 +27,7 @@ PRE, POST, INF = ("n1", "n2"), ("f1",), ("a", "b", "c")
 RIGHT = {"a": False, "b": False, "c": True}
 
 
-def streams(max_ops: int):
+def streams(max_ops: int, PRE: tuple = PRE, POST: tuple = POST, INF: tuple = INF):  # noqa: N803
     """Well-formed token streams: expr := prefix* primary postfix* (infix expr)?  with at most max_ops operators."""
     def expr(budget: int, k: int):
         for npre in range(budget + 1):
@@ -63,29 +63,30 @@ def tables(ops: list[str]):
             yield {**{o: 9 for o in PRE + POST + INF}, **prec}
 
 
-def reference(tokens: list[str], prec: dict[str, int]) -> object:
+def reference(tokens: list[str], prec: dict[str, int], pre: tuple = PRE, post: tuple = POST, inf: tuple = INF, right: dict | None = None) -> object:
     pos = 0
+    PRE_, POST_, INF_, RIGHT_ = pre, post, inf, (RIGHT if right is None else right)
 
     def parse(min_prec: int) -> object:
         nonlocal pos
         t = tokens[pos]
         pos += 1
-        if t in PRE:
+        if t in PRE_:
             left: object = (t, parse(prec[t]))
         else:
             left = ("v", t)
         while pos < len(tokens):
             o = tokens[pos]
-            if o in POST:
+            if o in POST_:
                 if prec[o] < min_prec:
                     break
                 pos += 1
                 left = (left, o)
-            elif o in INF:
+            elif o in INF_:
                 if prec[o] < min_prec:
                     break
                 pos += 1
-                rhs = parse(prec[o] + (0 if RIGHT[o] else 1))
+                rhs = parse(prec[o] + (0 if RIGHT_[o] else 1))
                 left = (left, o, rhs)
             else:
                 break
@@ -113,7 +114,13 @@ def check_pratt(repo: Repo, where: str, max_ops: int = 3) -> tuple[int, list[tup
         cm.env[name] = cm._ctor(name)  # noqa: SLF001
         cm.set_class_attr(name, "PREFIX_OPS", {o: prec[o] for o in PRE if o in prec})
         cm.set_class_attr(name, "POSTFIX_OPS", {o: prec[o] for o in POST if o in prec})
-        cm.set_class_attr(name, "INFIX_OPS", {o: (prec[o], RIGHT[o]) for o in INF if o in prec})
+        # associativity is declared with the library's own aliases where it has them (PrattParser.LEFT_ASSOC /
+        # RIGHT_ASSOC, whatever their values are), with plain booleans for every third class
+        aliases = {}
+        for flag, alias in ((False, "LEFT_ASSOC"), (True, "RIGHT_ASSOC")):
+            v = cm.class_attr("PrattParser", alias)
+            aliases[flag] = flag if v is cm._NOATTR or next(serial) % 3 == 0 else v  # noqa: SLF001
+        cm.set_class_attr(name, "INFIX_OPS", {o: (prec[o], aliases[RIGHT[o]]) for o in INF if o in prec})
         return name
 
     def instance(cname: str) -> Obj:
@@ -124,8 +131,9 @@ def check_pratt(repo: Repo, where: str, max_ops: int = 3) -> tuple[int, list[tup
         )
         return parser
 
-    def run(parser: Obj, toks: list[str], prec: dict, note: str = "") -> None:
-        pairs = [Obj("Pair", name=t, children=[], start=i, end=i + 1) for i, t in enumerate(toks)]
+    def run(parser: Obj, toks: list[str], prec: dict, note: str = "", empty: tuple = ()) -> None:
+        # (a pair may be empty - an operator written by juxtaposition, `juxt = { "" }` - and is a token like any other)
+        pairs = [Obj("Pair", name=t, children=[], start=i, end=i if t in empty else i + 1) for i, t in enumerate(toks)]
         stream = cm.new("Stream", pairs)
         want, want_pos = reference(toks, prec)
         desc = f"{' '.join(toks)}  with " + ", ".join(f"{o}={prec[o]}{'R' if RIGHT.get(o) else ''}" for o in PRE + POST + INF if o in toks) + note
@@ -145,6 +153,13 @@ def check_pratt(repo: Repo, where: str, max_ops: int = 3) -> tuple[int, list[tup
             full = {**{o: 1 for o in PRE + POST + INF}, **prec}
             n += 1
             run(instance(declare(full)), toks, full)
+    # zero-width tokens: an infix, prefix or postfix operator that matches the empty string, and an empty operand
+    for toks, empty in ((["x0", "a", "x1", "b", "x2"], ("a",)), (["x0", "a", "x1", "b", "x2"], ("a", "b")), (["n1", "x0", "a", "x1"], ("n1",)), (["x0", "f1", "a", "x1"], ("f1",)),
+                        (["x0", "a", "x1"], ("x1",)), (["x0", "c", "x1", "c", "x2"], ("c", "x0"))):
+        for prec in ({"a": 1, "b": 2, "c": 1, "n1": 3, "f1": 3}, {"a": 2, "b": 1, "c": 2, "n1": 1, "f1": 1}):
+            full = {**{o: 3 for o in PRE + POST + INF}, **prec}
+            n += 1
+            run(instance(declare(full)), toks, full, f"; the tokens {list(empty)} are empty pairs", empty)
     # tables are declared per class: a subclass that overrides them is honoured whatever its base class (or another
     # instance) has parsed before, and the base class is not disturbed by the subclass
     hist = [(["x0", "a", "x1", "b", "x2"], {"a": 1, "b": 2}, {"a": 2, "b": 1}), (["n1", "x0", "a", "x1"], {"n1": 1, "a": 2}, {"n1": 2, "a": 1}),
@@ -157,4 +172,46 @@ def check_pratt(repo: Repo, where: str, max_ops: int = 3) -> tuple[int, list[tup
         run(instance(base), toks, f1)
         run(instance(sub), toks, f2, "; declared on a subclass of a class that has just parsed with other tables")
         run(instance(base), toks, f1, "; after a subclass with other tables has parsed")
+    return n, bad
+
+
+CALC_LEVEL = {"add": 1, "sub": 1, "mul": 2, "div": 2, "pow": 3, "neg": 4, "fac": 5}
+CALC_RIGHT = {"add": False, "sub": False, "mul": False, "div": False, "pow": True}
+
+
+def check_calculator(repo: Repo, example_rel: str, cls: str, where: str, max_ops: int = 3) -> tuple[int, list[tuple[str, str]]]:
+    """The example's parser class, as declared (its tables are evaluated from its class body: numbers, the library's
+    associativity aliases, whatever they are), run through the library's parse_expr on every well-formed stream of up
+    to three of its operators: the tree must be the one the calculator's intended order (add, sub < mul, div < pow <
+    neg < fac; + - * / left, ^ right) denotes."""
+    m = repo.mod(example_rel)
+    names = sorted({n.attr for n in ast.walk(m.tree) if isinstance(n, ast.Attribute) and isinstance(n.value, ast.Name) and n.value.id == "Rule"})
+    rule_enum = Obj("RuleNames")
+    for nm in names:
+        rule_enum.__dict__[nm] = nm.lower()
+    cm = ClassModel(repo, ["src/pest/pratt.py", "src/pest/pairs.py", example_rel], where, {"Rule": rule_enum, "Generic": None}, max_steps=100000)
+    if cls not in cm.classes:
+        raise AnalysisError(f"{where}: anchor vanished: class {cls} in {example_rel}")
+    pre, post, inf = ("neg",), ("fac",), ("add", "sub", "mul", "div", "pow")
+    bad: list[tuple[str, str]] = []
+    n = 0
+    for toks in streams(max_ops, pre, post, inf):
+        n += 1
+        parser = cm.new(cls)
+        parser.__dict__.update(
+            parse_primary=lambda pair: ("v", pair.name), parse_prefix=lambda op, rhs: (op.name, rhs),
+            parse_postfix=lambda lhs, op: (lhs, op.name), parse_infix=lambda lhs, op, rhs: (lhs, op.name, rhs),
+        )
+        pairs = [Obj("Pair", name=t, children=[], start=i, end=i + 1) for i, t in enumerate(toks)]
+        stream = cm.new("Stream", pairs)
+        want, want_pos = reference(toks, CALC_LEVEL, pre, post, inf, CALC_RIGHT)
+        try:
+            got = cm.call(parser, "parse_expr", stream)
+        except ModelRaise as err:
+            bad.append(("the calculator's parser raises on a well-formed stream", f"{' '.join(toks)}: {err}"))
+            continue
+        if got != want:
+            bad.append(("the calculator groups an expression against its intended precedence or associativity", f"{' '.join(toks)}: builds {got}, intended {want}"))
+        elif stream.__dict__.get("pos") != want_pos:
+            bad.append(("the calculator does not consume the whole expression", f"{' '.join(toks)}: stops at {stream.__dict__.get('pos')} of {len(toks)}"))
     return n, bad
